@@ -263,10 +263,17 @@ def v3_structure_deviations(M: Mol, tier="quick"):
         yield (f"flip[{j}]", {"bond_flip": [j]})
         for tok in EXTRA_BOND_KW:
             yield (f"bondkw[{j}]:{tok}", {"extra_bond_kw": [(j, 0, tok)]})
-    if len(M.bonds) > 1:
-        for p in permutations(range(len(M.bonds))):
-            if list(p) != list(range(len(M.bonds))) and (len(M.bonds) <= 3 or _is_adjacent_swap(p)):
+    nbonds = len(M.bonds)
+    if 1 < nbonds <= 3:
+        for p in permutations(range(nbonds)):
+            if list(p) != list(range(nbonds)):
                 yield (f"bondorder={p}", {"bond_order": list(p)})
+    elif nbonds > 3:
+        for k in range(nbonds - 1):
+            p = list(range(nbonds))
+            p[k], p[k + 1] = p[k + 1], p[k]
+            yield (f"bondorder={tuple(p)}", {"bond_order": p})
+        yield (f"bondorder=reversed", {"bond_order": list(range(nbonds - 1, -1, -1))})
     # star atoms: every subset of >=2 same-type bonds at one atom
     for c in range(n):
         inc = [j for j, (a, b, t) in enumerate(M.bonds) if c in (a, b)]
